@@ -58,14 +58,98 @@ NUM_VALS = ["nan", "inf", "ninf", "m1", "zero", "nzero", "p31", "n31", "p53", "n
 ROUTES = {"s": "'%s'", "v": "({valueOf: function () { return %s }})", "a": "[%s]"}
 
 
+# in-range small integers and a JSON text (C04.tla SmallClasses, SmallInts: i<n> = the number n)
+ARG_SRC.update({"one": "1", "three": "3", "sjson": "'[1,[2,3],{\"a\":[4]}]'"})
+
+# ---- hostile classes (C04.tla HostileSet): arguments with behaviour or structure ---------------------------------------
+# what one mutation does to the array t (MutKinds)
+MUT_BODY = {"push": "t.push(0);", "pop": "t.pop();", "len0": "t.length = 0;", "splice": "t.splice(0, 1);", "sort": "t.sort();",
+            "rev": "t.reverse();", "store": "t[t.length + 3] = 1;", "shift": "t.shift();"}
+# __hit(m, self, args): mutate whatever array is being iterated - the receiver of the call, the callback's this (the holder a
+# reviver / replacer walks), the array handed over as third / fourth argument
+PRE_BASE = ("var __n = 0; function __hit(m, self, args) { if (typeof __r !== 'undefined') { m(__r); } m(self); m(args[2]); m(args[3]); } ")
+PRE_MUT = ("function __mut_%(k)s(t) { if (t !== null && typeof t === 'object' && typeof t.push === 'function' && __n < %(budget)d) "
+           "{ __n++; %(body)s } } ")
+HOOKS = ("{valueOf: function () { __hit(__mut_%(k)s, %(self)s, arguments); return 1 }, "
+         "toString: function () { __hit(__mut_%(k)s, %(self)s, arguments); return 'x' }, "
+         "toJSON: function () { __hit(__mut_%(k)s, %(self)s, arguments); return 1 }}")
+TEXTS = {"t_dec": lambda n: "1" * n, "t_neg": lambda n: "-" + "9" * n, "t_hex": lambda n: "0x" + "f" * n, "t_oct": lambda n: "0o" + "7" * n,
+         "t_bin": lambda n: "0b" + "1" * n, "t_frac": lambda n: "0." + "1" * n, "t_exp": lambda n: "1e" + "9" * n,
+         "t_nexp": lambda n: "1e-" + "9" * n, "t_brackets": lambda n: "[" * n + "]" * n,
+         "t_braces": lambda n: '{"a":' * n + "1" + "}" * n, "t_parens": lambda n: "(" * n + ")" * n}
+DEEP_CHUNK = 200                                   # levels added by one call of the host helper (below the host's recursion limit)
+
+
+def _nest_list(v):
+    for _ in range(DEEP_CHUNK):
+        v = [v]
+    return v
+
+
+def _nest_obj(v):
+    for _ in range(DEEP_CHUNK):
+        v = {"a": v}
+    return v
+
+
+def hostile(a, params):
+    """(JavaScript text, prelude pieces, values to set) of a hostile class; None if the class is not hostile"""
+    kind, _, m = a.partition("_")
+    if kind == "fn" and m in MUT_BODY:
+        return "(function () { __hit(__mut_%s, this, arguments); return __n %% 3 - 1 })" % m, ["base", "mut_" + m], []
+    if kind == "hook" and m in MUT_BODY:
+        return "(" + HOOKS % {"k": m, "self": "this"} + ")", ["base", "mut_" + m], []
+    if kind == "harr" and m in MUT_BODY:
+        # an array whose second element has the hooks and whose third element is a getter, all mutating the array itself
+        return ("(function () { var a = [3, 0, 2]; a[1] = %s; try { Object.defineProperty(a, 2, {get: function () { __mut_%s(a); return 2 }, "
+                "configurable: true, enumerable: true}); } catch (e) {} return a })()" % (HOOKS % {"k": m, "self": "a"}, m)), ["base", "mut_" + m], []
+    if a == "cyc_arr":
+        return "(function () { var a = [1]; a.push(a); return a })()", [], []
+    if a == "cyc_obj":
+        return "(function () { var o = {a: 1}; o.self = o; return o })()", [], []
+    if a == "deep_arr":
+        return "__deep_arr", ["deep_arr"], [("__nl", _nest_list)]
+    if a == "deep_obj":
+        return "__deep_obj", ["deep_obj"], [("__no", _nest_obj)]
+    if a in TEXTS:
+        return "__" + a, [], [("__" + a, TEXTS[a](params["HostileSize"]))]
+    return None
+
+
+def prelude(pieces, params):
+    out = []
+    for pc in sorted(set(pieces), key=lambda x: (x != "base", x)):
+        if pc == "base":
+            out.append(PRE_BASE)
+        elif pc.startswith("mut_"):
+            out.append(PRE_MUT % {"k": pc[4:], "budget": params["MutBudget"], "body": MUT_BODY[pc[4:]]})
+        elif pc == "deep_arr":
+            out.append("var __deep_arr = []; for (var __i = 0; __i < %d; __i++) { __deep_arr = __nl(__deep_arr); } " % (params["DeepLevels"] // DEEP_CHUNK))
+        elif pc == "deep_obj":
+            out.append("var __deep_obj = {}; for (var __i = 0; __i < %d; __i++) { __deep_obj = __no(__deep_obj); } " % (params["DeepLevels"] // DEEP_CHUNK))
+    return "".join(out)
+
+
 def arg_src(a):
-    """JavaScript text of an argument class"""
+    """JavaScript text of a plain argument class"""
     if a in ARG_SRC:
         return ARG_SRC[a]
+    if a[:1] == "i" and a[1:].isdigit():
+        return a[1:]
     rt, _, nv = a.partition("_")
     if rt not in ROUTES or nv not in NUM_VALS:
         raise ValueError("unknown argument class " + a)
     return ROUTES[rt] % ARG_SRC[nv]
+
+
+def render(a, params, pieces, sets):
+    """JavaScript text of any argument class; collects the prelude pieces and host values a hostile class needs"""
+    h = hostile(a, params)
+    if h is None:
+        return arg_src(a)
+    pieces.extend(h[1])
+    sets.extend(h[2])
+    return h[0]
 
 
 RECEIVERS = {
@@ -77,7 +161,19 @@ RECEIVERS = {
     "err": "(new Error('x'))", "bool": "true", "native": "Math.abs", "arrow": "((a) => a)",
     # shape / value variants of a receiver kind: empty array, empty string, the non-finite and the huge number
     "arr0": "[]", "str0": "''", "numnan": "(NaN)", "numninf": "(-Infinity)", "nume21": "(1e21)",
+    # hostile receivers (C04.tla HostileReceivers): @<class> = the text of the hostile class
+    "r_cyc_arr": "@cyc_arr", "r_cyc_obj": "@cyc_obj", "r_deep_arr": "@deep_arr", "r_deep_obj": "@deep_obj",
+    "r_harr_push": "@harr_push", "r_harr_len0": "@harr_len0", "r_digits": "@t_dec", "r_p53": "(9007199254740992)",
+    "r_max": "(1.7976931348623157e308)",
 }
+
+
+def recv_src(recv, params, pieces, sets):
+    src = RECEIVERS[recv]
+    if src is not None and src[:1] == "@":
+        return render(src[1:], params, pieces, sets)
+    return src
+
 # the variants get the short vectors in the quick tier (C04.tla ShortVector), all vectors in the thorough tier
 VARIANT_RECEIVERS = ["arr0", "str0", "numnan", "numninf", "nume21"]
 
@@ -148,17 +244,17 @@ def harvest_names():
     return _names
 
 
-def discover(api, recv):
+def discover(api, recv, params):
     """function-valued properties of a receiver kind, found by asking the engine"""
     if recv in _discovered:
         return _discovered[recv]
-    found = _discover(api, recv)
+    found = _discover(api, recv, params)
     if found:                                      # (an empty answer is not kept: the next slice asks again)
         _discovered[recv] = found
     return found
 
 
-def _discover(api, recv):
+def _discover(api, recv, params):
     names = harvest_names()
     ctx = api.Context(time_limit=5.0)
     found = []
@@ -170,9 +266,13 @@ def _discover(api, recv):
             except Exception:
                 pass
         return found
+    pieces, sets = [], []
+    rsrc = recv_src(recv, params, pieces, sets)
+    for nm, val in sets:
+        ctx.set(nm, val)
     ctx.set("__names", names)
-    src = ("var __r = %s; var __o = []; for (var __i = 0; __i < __names.length; __i++) { "
-           "try { if (typeof __r[__names[__i]] === 'function') __o.push(__names[__i]); } catch (e) {} } __o" % RECEIVERS[recv])
+    src = (prelude(pieces, params) + "var __r = %s; var __o = []; for (var __i = 0; __i < __names.length; __i++) { "
+           "try { if (typeof __r[__names[__i]] === 'function') __o.push(__names[__i]); } catch (e) {} } __o" % rsrc)
     return list(ctx.eval(src))                     # (a failure here is a failure of the machinery: it propagates)
 
 
@@ -338,39 +438,121 @@ def driver1(case, api):
     raise ValueError("unknown case kind " + kind)
 
 
+# ---- harness texts (the prelude of the hostile classes, the use statements) are parsed and compiled once per child process --------
+# Only texts registered here are served from the cache: every generated program goes through the engine's front end as it is.
+_HARNESS_TEXTS = set()
+
+
+def _install_harness_cache():
+    import microjs.context as C
+    P0, K0 = C.Parser, C.Compiler
+    if getattr(P0, "_c04_cached", False):
+        return
+    asts, comp = {}, {}
+
+    class CachedParser:
+        _c04_cached = True
+
+        def __init__(self, code):
+            self.code = code
+
+        def parse(self):
+            if self.code not in _HARNESS_TEXTS:
+                return P0(self.code).parse()
+            a = asts.get(self.code)
+            if a is None:
+                a = asts[self.code] = P0(self.code).parse()
+            return a
+
+    class CachedCompiler:
+        def compile(self, ast):
+            c = comp.get(id(ast))
+            if c is not None and c[0] is ast:
+                return c[1]
+            out = K0().compile(ast)
+            if any(a is ast for a in asts.values()):
+                comp[id(ast)] = (ast, out)
+            return out
+    C.Parser, C.Compiler = CachedParser, CachedCompiler
+
+
+def harness_eval(ctx, src):
+    """evaluate a constant text of the harness (cached front end)"""
+    _HARNESS_TEXTS.add(src)
+    return ctx.eval(src)
+
+
+def is_object_result(v):
+    """did Context.eval hand back an object (anything but a primitive) ?"""
+    return not (v is None or isinstance(v, (bool, int, float, str)))
+
+
 def grid(case, api):
+    """every discovered function x the case's vectors, every operator form x the vectors of its arity; when a call returns an
+    object, the use statements (C04.tla UseOps) are run on it in the same context"""
     recv = case["recv"]
-    fns = discover(api, recv)
+    params = case["params"]
+    _install_harness_cache()
+    fns = discover(api, recv, params)
     alloc, huge = set(case["allocating"]), set(case["huge"])
     res = [{"id": case["id"], "discovered": fns, "recv": recv}]
     forms = ["call"] + (["new"] if recv == "global" else [])
+    ops = case.get("ops", [])
     if "only" in case:                             # one call observed again (checks/c04.py reobserve_hangs)
-        fns, forms = [case["only"]], [case["form"]]
-    for fn in fns:
-        for form in forms:
-            for vi, vec in enumerate(case["vecs"]):
-                if fn in alloc and any(a in huge for a in vec):
-                    continue
-                names = []
-                sets = []
-                for ai, a in enumerate(vec):
-                    if case.get("intrep") == "float" and a in ARG_PY:
-                        sets.append(("__a%d" % ai, ARG_PY[a]))
-                        names.append("__a%d" % ai)
-                    else:
-                        names.append(arg_src(a))
-                args = ", ".join(names)
-                if RECEIVERS[recv] is None:
-                    src = ("new " if form == "new" else "") + "%s(%s)" % (fn, args)
-                else:
-                    src = "var __r = %s; __r.%s(%s)" % (RECEIVERS[recv], fn, args)
-                def call(src=src, sets=sets):
-                    ctx = api.Context(time_limit=1.0)
-                    for nm, val in sets:
-                        ctx.set(nm, val)
-                    return ctx.eval(src)
-                out = run_patient(api, call)
-                out.pop("pv", None)
-                res.append({"id": case["id"], "recv": recv, "fname": fn, "form": form, "args": vec, "src": src,
-                            "out": outcome_record(out)})
+        forms = [case["form"]]
+        fns = [case["only"]] if not case["only"].startswith("op:") else []
+        ops = [op for op in ops if "op:" + op["n"] == case["only"]]
+    use_src = "".join("try { %s } catch (__e) {} " % u.replace("@U", "__u") for u in case.get("use", []))
+    oppairs = {tuple(v) for v in case.get("oppairs", [])}
+    todo = [(fn, form, None, vec) for fn in fns for form in forms for vec in case["vecs"]]
+    todo += [("op:" + op["n"], "op", op, vec) for op in ops for vec in case["vecs"]
+             if len(vec) == op["ar"] and (op["ar"] < 2 or tuple(vec) in oppairs)]
+    for fn, form, op, vec in todo:
+        if fn in alloc and any(a in huge for a in vec):
+            continue
+        names, sets, pieces = [], [], []
+        for ai, a in enumerate(vec):
+            if case.get("intrep") == "float" and a in ARG_PY:
+                sets.append(("__a%d" % ai, ARG_PY[a]))
+                names.append("__a%d" % ai)
+            else:
+                names.append(render(a, params, pieces, sets))
+        args = ", ".join(names)
+        if RECEIVERS[recv] is None:
+            call = ("new " if form == "new" else "") + "%s(%s)" % (fn, args)
+            src = "var __u = %s; __u" % call
+            shown = call
+        else:
+            rsrc = recv_src(recv, params, pieces, sets)
+            if op is None:
+                src = "var __r = %s; var __u = __r.%s(%s); __u" % (rsrc, fn, args)
+                shown = "var __r = %s; __r.%s(%s)" % (rsrc, fn, args)
+            else:
+                body = op["t"].replace("@R", "__r")
+                for ai, nm in enumerate(names):
+                    body = body.replace("@%d" % ai, nm)
+                src = shown = "var __r = %s; %s" % (rsrc, body)
+        pre = prelude(pieces, params)
+        box = []
+
+        def call_fn(src=src, sets=sets, box=box, pre=pre):
+            ctx = api.Context(time_limit=1.0)
+            for nm, val in sets:
+                ctx.set(nm, val)
+            box.append(ctx)
+            if pre:
+                harness_eval(ctx, pre)
+            return ctx.eval(src)
+        out = run_patient(api, call_fn)
+        pv = out.pop("pv", None)
+        use = None
+        if op is None and use_src and out["o"] == "value" and is_object_result(pv):
+            ctx = box[-1]
+            use = run_patient(api, lambda: harness_eval(ctx, use_src))
+            use.pop("pv", None)
+            use = outcome_record(use)
+        r = {"id": case["id"], "recv": recv, "fname": fn, "form": form, "args": vec, "src": shown[:300], "out": outcome_record(out)}
+        if use is not None:
+            r["use"] = use
+        res.append(r)
     return res
